@@ -22,7 +22,7 @@ EXTENDS ZogRef, Json, SequencesExt
 CONSTANTS
   MaxLen,            \* chain length bound
   OptLevel,          \* "few" | "all": how many option combinations per test call
-  ChainTy,           \* "str" | "int"
+  ChainTy,           \* "str" | "str2" (the other negatable string tests) | "int"
   CasesFile,
   SwNotConsumed,     \* addTest clears isNot after using it
   SwCodeFlipBeforeOpts, \* the not_ prefix is applied before the options, so IssueCode wins
@@ -33,18 +33,20 @@ CONSTANTS
 \* op: "not" | "t" (built-in test) | "tf" (TestFunc) | "req" | "opt" | "def" | "catch"
 Call(op, kind, n, code, path, msg) == [op |-> op, kind |-> kind, n |-> n, code |-> code, path |-> path, msg |-> msg]
 
+\* msg = "MF": a MessageFunc that leaves the message alone -- the default message applies, never somebody else's
 OptSets == IF OptLevel = "few"
-           THEN {[code |-> "", path |-> "", msg |-> ""], [code |-> "cc", path |-> "pp", msg |-> "mm"]}
+           THEN {[code |-> "", path |-> "", msg |-> ""], [code |-> "cc", path |-> "pp", msg |-> "mm"], [code |-> "", path |-> "", msg |-> "MF"]}
            ELSE {[code |-> "", path |-> "", msg |-> ""], [code |-> "cc", path |-> "", msg |-> ""],
                  [code |-> "", path |-> "pp", msg |-> ""], [code |-> "", path |-> "", msg |-> "mm"],
-                 [code |-> "cc", path |-> "pp", msg |-> "mm"]}
+                 [code |-> "cc", path |-> "pp", msg |-> "mm"], [code |-> "", path |-> "", msg |-> "MF"]}
 
 \* negatable built-in tests (string: Len, Contains) and plain ones (string: Min; int: GTE, LTE)
-NegKinds == IF ChainTy = "str" THEN {"len", "has"} ELSE {}
-PlainKinds == IF ChainTy = "str" THEN {"min"} ELSE {"gte", "lte"}
+NegKinds == CASE ChainTy = "str" -> {"len", "has"} [] ChainTy = "str2" -> {"upper", "special", "pre"} [] OTHER -> {}
+PlainKinds == IF ChainTy \in {"str", "str2"} THEN {"min"} ELSE {"gte", "lte"}
+NodeTy == IF ChainTy = "str2" THEN "str" ELSE ChainTy
 
-BaseCode(kind) == CASE kind = "has" -> "contained" [] OTHER -> kind
-NegKind(kind) == CASE kind = "len" -> "nlen" [] kind = "has" -> "nhas" [] OTHER -> kind
+BaseCode(kind) == CASE kind = "has" -> "contained" [] kind = "upper" -> "contains_upper" [] kind = "special" -> "contains_special" [] kind = "pre" -> "prefix" [] OTHER -> kind
+NegKind(kind) == CASE kind = "len" -> "nlen" [] kind = "has" -> "nhas" [] kind = "upper" -> "nupper" [] kind = "special" -> "nspecial" [] kind = "pre" -> "npre" [] OTHER -> kind
 
 TestCalls(kinds) == {Call("t", k, n, o.code, o.path, o.msg) : k \in kinds, n \in {2}, o \in OptSets}
 OtherCalls ==
@@ -75,7 +77,7 @@ NodeOf(chain) ==
       rq == LastOf(chain, {"req", "opt"})
       df == LastOf(chain, {"def"})
       ct == LastOf(chain, {"catch"})
-  IN [k |-> "prim", ty |-> ChainTy, req |-> rq.op = "req", reqmsg |-> IF rq.op = "req" THEN rq.msg ELSE "",
+  IN [k |-> "prim", ty |-> NodeTy, req |-> rq.op = "req", reqmsg |-> IF rq.op = "req" THEN rq.msg ELSE "",
       def |-> IF df.op = "def" THEN df.n ELSE None, catch |-> IF ct.op = "catch" THEN ct.n ELSE None,
       tests |-> [i \in DOMAIN keep |-> keep[i].t], pts |-> <<>>, kids |-> <<>>]
 
@@ -83,7 +85,7 @@ NodeOf(chain) ==
 VARIABLES chain, isNot, node
 cvars == <<chain, isNot, node>>
 
-EmptyNode == [k |-> "prim", ty |-> ChainTy, req |-> FALSE, reqmsg |-> "", def |-> None, catch |-> None,
+EmptyNode == [k |-> "prim", ty |-> NodeTy, req |-> FALSE, reqmsg |-> "", def |-> None, catch |-> None,
               tests |-> <<>>, pts |-> <<>>, kids |-> <<>>]
 
 ChainInit == chain = <<>> /\ isNot = FALSE /\ node = EmptyNode
